@@ -169,6 +169,9 @@ def model(s, cmd):
     return State(tuple(sysf), tuple(bak), pkg, s.svc), replaces
 
 
+HUNG = []
+
+
 def run_tool(cmd, trace=None):
     args = {"backup": ["backup"], "restore": ["restore"], "uninstall-service": ["uninstall", "service"],
             "uninstall-package": ["uninstall", "package"], "purge": ["purge"]}.get(cmd, ["install"])
@@ -176,7 +179,13 @@ def run_tool(cmd, trace=None):
     argv = [D + "/proxy_agent_setup"] + args
     if trace:
         argv = ["strace", "-f", "-qq", "-e", "trace=%file", "-o", trace] + argv
-    r = subprocess.run(argv, env=env, stdout=subprocess.PIPE, stderr=subprocess.STDOUT, timeout=60)
+    try:
+        r = subprocess.run(argv, env=env, stdout=subprocess.PIPE, stderr=subprocess.STDOUT, timeout=60)
+    except subprocess.TimeoutExpired:
+        # a command of the tool that does not come back within a minute is the tool's doing (the same command takes
+        # milliseconds on the unchanged tree): reported as a finding by the caller, not a failure of the machinery
+        HUNG.append(cmd)
+        return -9, "(did not finish within 60 s)"
     return r.returncode, r.stdout.decode(errors="replace")
 
 
@@ -505,6 +514,8 @@ def main():
                               % (other, " from a package without its unit file" if install_fails else "", rc2, mid.sys, rc3, init.sys, fin.sys), case)
                 elif fin.svc != "active":
                     violation("service-not-started-afterwards:restore:real-chain", "after backup, install%s, restore the service is in state '%s'" % (" (failed half-way)" if install_fails else "", fin.svc), case)
+    for cmd in HUNG:
+        violation("setup-command-did-not-finish:" + cmd.split("-")[0], "%s did not finish within 60 s" % cmd, {"family": "hung-command", "command": cmd})
     res["violations"] = list(viol.values())
     res["coverage"] = {
         "states": len(states_seen), "transitions": transitions, "traces_validated_against_impl": transitions,
